@@ -234,8 +234,15 @@ enum Step {
     BatchGet { keys: Vec<Vec<u8>> },
     /// fast_batch_set_pipeline(pairs)
     BatchSet { pairs: Vec<(Vec<u8>, Vec<u8>)> },
-    /// advance the shared clock; `evict` = the TTL manager ticks (evict_expired_all_shards)
-    Clock { ms: u64, evict: bool },
+    /// advance the shared clock; `evict` = the TTL manager ticks: either the harness calls
+    /// evict_expired_all_shards itself, or (`actor`) the real TtlManagerActor is spawned on the
+    /// instance and handed an explicit TtlMessage::Tick
+    Clock {
+        ms: u64,
+        evict: bool,
+        #[serde(default)]
+        actor: bool,
+    },
 }
 
 #[derive(Clone, Debug, Serialize, Deserialize)]
@@ -402,10 +409,14 @@ fn show_step(step: &Step) -> String {
                 .collect::<Vec<_>>()
                 .join(", ")
         ),
-        Step::Clock { ms, evict } => format!(
+        Step::Clock { ms, evict, actor } => format!(
             "clock += {} ms{}",
             ms,
-            if *evict { " + TTL tick" } else { "" }
+            match (*evict, *actor) {
+                (false, _) => "",
+                (true, false) => " + TTL tick",
+                (true, true) => " + TTL tick (TtlManagerActor, TtlMessage::Tick)",
+            }
         ),
     }
 }
@@ -493,6 +504,20 @@ fn stale_read_shape(r1: &Reply, rn: &Reply) -> bool {
         }
         _ => false,
     }
+}
+
+/// One TTL-manager tick through the real `TtlManagerActor`: spawn it on the instance with a
+/// one-hour period (its periodic timer fires once at start-up, at this very clock value, and then
+/// never again during the case), send the explicit `TtlMessage::Tick`, then `shutdown().await`.
+/// The actor's mailbox is FIFO, so the shutdown reply is a structural barrier: the tick has been
+/// processed completely. No actor outlives the step, so no sweep happens at an uncontrolled time.
+async fn tick_via_actor(st: &State) {
+    use redis_sim::observability::{DatadogConfig, Metrics};
+    use redis_sim::production::TtlManagerActor;
+    let metrics = std::sync::Arc::new(Metrics::new(&DatadogConfig::from_env()));
+    let handle = TtlManagerActor::spawn_with_interval(st.clone(), 3_600_000, metrics);
+    handle.tick();
+    handle.shutdown().await;
 }
 
 async fn scan_walk(st: &State, argv: &Argv) -> Result<BTreeSet<Vec<u8>>, Reply> {
@@ -644,12 +669,20 @@ async fn run_api(case: &ApiCase, cfg: &ShardCfg, ctx: &mut CaseCtx<'_>) -> Resul
     let mut multi = false;
 
     for (i, step) in case.steps.iter().enumerate() {
-        if let Step::Clock { ms, evict } = step {
+        if let Step::Clock { ms, evict, actor } = step {
             time.advance(*ms);
             if *evict {
-                reference.evict_expired_all_shards().await;
-                for (_, st) in &subjects {
-                    st.evict_expired_all_shards().await;
+                if *actor {
+                    ctx.label("ttl_tick_via_actor");
+                    tick_via_actor(&reference).await;
+                    for (_, st) in &subjects {
+                        tick_via_actor(st).await;
+                    }
+                } else {
+                    reference.evict_expired_all_shards().await;
+                    for (_, st) in &subjects {
+                        st.evict_expired_all_shards().await;
+                    }
                 }
                 stale = false;
             } else if *ms > 0 {
@@ -1173,13 +1206,13 @@ fn step_strategy() -> BoxedStrategy<Vec<Step>> {
         4 => proptest::collection::vec(gen::key(&o), 1..6).prop_map(|keys| Step::BatchGet { keys }),
         4 => proptest::collection::vec((gen::key(&o), gen::value()), 1..6)
             .prop_map(|pairs| Step::BatchSet { pairs }),
-        8 => (clock_ms(), any::<bool>()).prop_map(|(ms, evict)| Step::Clock { ms, evict }),
+        8 => (clock_ms(), any::<bool>(), any::<bool>()).prop_map(|(ms, evict, actor)| Step::Clock { ms, evict, actor }),
     ]
     .boxed();
     // aimed at a tiny region: a deadline, a clock step around it (with or without the TTL
     // manager's tick), then a read of that key through a generated entry path
-    let ttl_probe = (gen::key(&o), gen::value(), 1u64..40, 0u64..3, any::<bool>(), path(), any::<bool>()).prop_map(
-        |(k, v, ttl, rel, evict, path, batch)| {
+    let ttl_probe = (gen::key(&o), gen::value(), 1u64..40, 0u64..3, any::<bool>(), path(), any::<bool>(), any::<bool>()).prop_map(
+        |(k, v, ttl, rel, evict, path, batch, actor)| {
             let ms = match rel {
                 0 => ttl - 1,
                 1 => ttl,
@@ -1192,7 +1225,7 @@ fn step_strategy() -> BoxedStrategy<Vec<Step>> {
             };
             vec![
                 Step::Cmd { argv: a(&[b"SET", &k, &v, b"PX", ttl.to_string().as_bytes()]), path: Path::Generic },
-                Step::Clock { ms, evict },
+                Step::Clock { ms, evict, actor },
                 read,
             ]
         },
@@ -1734,7 +1767,7 @@ fn main() {
                 cfgs: vec![],
                     steps: vec![
                         cmd(&[b"SET", &sa, b"v", b"PX", b"10"]),
-                        Step::Clock { ms: 20, evict: false },
+                        Step::Clock { ms: 20, evict: false, actor: false },
                         cmd(&[b"GET", &sb]),
                         Step::Cmd { argv: a(&[b"GET", &sa]), path: Path::Fast },
                     ],
